@@ -36,7 +36,7 @@ class C06(scen.WorldProp):
                   "non-trivial = the method started")
 
     def cases(self, rng, tier):
-        n = 60 if tier == "quick" else 600
+        n = 300 if tier == "quick" else 3000
         for i in range(n):
             stage = rng.randint(3, 8)
             N = min(16, stage + rng.choice([0, 0, 1, 2]))
